@@ -253,3 +253,43 @@ package client
 //@     invariant forall n string :: {fd.tables[n]} n in visited ==> fd.tables[n].NativeInterpreter.filterExpressions == i.(*interpreter.Native).filterExpressions &&
 //@                fd.tables[n].NativeInterpreter.keyExpressions == i.(*interpreter.Native).keyExpressions && fd.tables[n].NativeInterpreter.writeCondExpressions == i.(*interpreter.Native).writeCondExpressions &&
 //@                fd.tables[n].NativeInterpreter.updateExpressions == i.(*interpreter.Native).updateExpressions
+
+// ---- C16: expression attribute names and values -----------------------------------------------------------
+// A request whose every supplied #name / :value occurs in the text of its expressions and is a well-formed
+// placeholder is never rejected on that account; one with a name or value that does not occur, or a malformed key,
+// is rejected. "Occurs" is strings.Contains (uninterpreted here; that substring search accepts :v for :value is the
+// recorded finding C16-F1), well-formed is the package's regular expression (uninterpreted).
+//@ func getKeysFromExpressionNames
+//@   ensures forall j int :: {result[j]} 0 <= j && j < len(result) ==> result[j] in m
+//@   loop 1:
+//@     invariant fresh(arr(keys)) && arr(keys) != 0
+//@     invariant forall j int :: {keys[j]} 0 <= j && j < len(keys) ==> keys[j] in visited
+//@ func getKeysFromExpressionValues
+//@   ensures forall j int :: {result[j]} 0 <= j && j < len(result) ==> result[j] in m
+//@   loop 1:
+//@     invariant fresh(arr(keys)) && arr(keys) != 0
+//@     invariant forall j int :: {keys[j]} 0 <= j && j < len(keys) ==> keys[j] in visited
+//@ func getMissingSubstrs
+//@   ensures[C16] (len(result) == 0) == (forall j int :: {substrs[j]} 0 <= j && j < len(substrs) ==> strContains(s, substrs[j]))
+//@   loop 1:
+//@     invariant -1 <= rangeindex && rangeindex < len(substrs) && fresh(arr(missingSubstrs)) && arr(missingSubstrs) != 0
+//@     invariant (len(missingSubstrs) == 0) == (forall j int :: {substrs[j]} 0 <= j && j <= rangeindex ==> strContains(s, substrs[j]))
+//@ func validateSyntaxExpression
+//@   ensures[C16] (result == nil) == (forall j int :: {expressions[j]} 0 <= j && j < len(expressions) ==> reMatch(regex, expressions[j]))
+//@   loop 1:
+//@     invariant -1 <= rangeindex && rangeindex < len(expressions)
+//@     invariant forall j int :: {expressions[j]} 0 <= j && j <= rangeindex ==> reMatch(regex, expressions[j])
+//@ pred ExprText(parts []string) := strTrim(strJoin(parts, " "))
+//@ func validateExpressionAttributes
+//@   ensures[C16] (forall k string :: {k in exprNames} k in exprNames ==> strContains(ExprText(genericExpressions), k) && reMatch(expressionAttributeNamesRegex, k)) &&
+//@                (forall k string :: {k in exprValues} k in exprValues ==> strContains(ExprText(genericExpressions), k) && reMatch(expressionAttributeValuesRegex, k)) ==> result == nil
+// what is checked: the names and the values the request supplies, against the text of all its expressions, each through
+// the helpers above (that a name or value that does not occur is rejected follows from these call-site clauses and the
+// helpers' contracts; it is not restated over the maps because the key lists are only proved to contain nothing else)
+//@   callsite[C16] getKeysFromExpressionNames: arg.m == exprNames
+//@   callsite[C16] getKeysFromExpressionValues: arg.m == exprValues
+//@   callsite[C16] getMissingSubstrs#1: arg.s == ExprText(genericExpressions) && arg.substrs == flattenNames
+//@   callsite[C16] getMissingSubstrs#2: arg.s == ExprText(genericExpressions) && arg.substrs == flattenValues
+//@   callsite[C16] validateSyntaxExpression#1: arg.regex == expressionAttributeNamesRegex && arg.expressions == flattenNames
+//@   callsite[C16] validateSyntaxExpression#2: arg.regex == expressionAttributeValuesRegex && arg.expressions == flattenValues
+//@   ensures[C16] result == nil && !(ExprText(genericExpressions) == "" && len(exprNames) == 0 && len(exprValues) == 0) ==> len(missingNames) == 0 && len(missingValues) == 0
